@@ -43,7 +43,7 @@ def check(repo, res, tier):
     from ..rules import abcx
     from ..core import absint as _ai
     _ai.INLINED.clear()
-    n = abcx.check_runs(repo, res)
+    n = abcx.check_runs(repo, res, tier=tier)
     res.floor("ABC runs interpreted", n, 20)
     res.functions |= set(_ai.INLINED)
     _schedule(repo, res, abc)
